@@ -13,10 +13,11 @@ pub struct Projection {
 
 impl Projection {
     /// Check if this is an identity projection (all columns in same order)
-    /// Returns true if indices == [0, 1, 2, ..., n-1] where n = column_count
-    pub fn is_identity(&self) -> bool {
+    /// Returns true if indices == [0, 1, 2, ..., n-1] where n = column_count of the input:
+    /// a projection that keeps only a prefix of the input columns still has to drop the rest
+    pub fn is_identity(&self, input_column_count: usize) -> bool {
         let expected_count = self.schema.column_count();
-        if self.indices.len() != expected_count {
+        if self.indices.len() != expected_count || expected_count != input_column_count {
             return false;
         }
         // Check if indices are 0, 1, 2, ..., n-1
